@@ -4,7 +4,7 @@
    "any S": holds for every Scalar record (so also for floats with NaN/Inf);
    "ring"/"field": Section hypotheses, closed at Qc below. *)
 From Coq Require Import Permutation.
-From Amgcl Require Import Scalar QcInst Vec Crs DirectUtil CuthillMcKee Direct Inverse StaticMat Qr
+From Amgcl Require Import Scalar QcInst Vec Crs DirectUtil CuthillMcKee Direct Inverse StaticMat Qr DirectSpec
      CuthillMcKeeProofs DirectProofs InverseProofs StaticMatProofs.
 Local Open Scope S_scope.
 
@@ -32,6 +32,16 @@ Theorem C16_skyline_scratch_keeps_size (S : Scalar) (f : skyline S) rhs x (y : v
   length (snd (sky_solve f rhs x y)) = length y.
 Proof. exact (sky_solve_scratch_length f rhs x y). Qed.
 Print Assumptions C16_skyline_scratch_keeps_size.
+
+
+(* every solver object returned by the constructor (any ordering result) has a well-formed
+   skyline profile: 0 <= len_i <= i, ptr monotone -- the shape the index arithmetic of
+   factorize() and operator() relies on *)
+Theorem C16_skyline_profile_wellformed (S : Scalar) (A : crs S) perm f :
+  sky_build_perm A perm = SkyOk f ->
+  sk_n f = nrows A /\ sk_perm f = perm /\ profile_wf (sk_n f) (sk_ptr f).
+Proof. exact (sky_build_perm_wf A perm f). Qed.
+Print Assumptions C16_skyline_profile_wellformed.
 
 (* detail::inverse: the result does not depend on the uninitialised scratch array t. *)
 Theorem C16_inverse_junk_independent (S : Scalar) n (A t t' : vec S) :
@@ -74,14 +84,39 @@ Theorem C16_skyline_pivots_nonzero n ptr (lud : vec S * vec S * vec S) L U D :
   factorize n ptr lud = Some (L, U, D) -> forall i, i < n -> vget D i <> s0.
 Proof. exact (factorize_pivots_nonzero Sft Seqb n ptr lud L U D). Qed.
 
+
+(* End to end (field): for EVERY square matrix with n >= 1 rows -- any pattern, either degree
+   order -- whenever the constructor succeeds (no zero pivot) the object holds a permutation, a
+   well-formed profile and non-zero pivots, and every call of operator() (whatever y contains)
+   returns x with L'(U' x') = b' for the stored factors. *)
+Theorem C16_skyline_built_solver_exact reverse (A : crs S) f (rhs x y : vec S) :
+  graph_wf (map (map fst) (rows A)) = true -> (0 < nrows A)%nat ->
+  sky_build reverse A = SkyOk f -> length y = nrows A -> length x = nrows A ->
+  sk_n f = nrows A /\ Permutation (sk_perm f) (seq 0 (nrows A)) /\
+  forall i, i < nrows A ->
+    sumn (fun j => Lfull f i j *
+                   sumn (fun t => Ufull f j t * vget (fst (sky_solve f rhs x y)) (pget (sk_perm f) t))
+                        (sk_n f)) (sk_n f)
+    = vget rhs (pget (sk_perm f) i).
+Proof. exact (sky_build_solve_exact Sft Seqb reverse A f rhs x y). Qed.
+
+(* A2 (field), partial: dense Crout (full profile) for n = 3: the factors stored by factorize()
+   multiply to the matrix that was filled in, L' U' = A, whenever no pivot is zero. *)
+Theorem C16_crout_dense_3_partial (d0 d1 d2 l10 l20 l21 u01 u02 u12 : S) perm L U D :
+  factorize 3 [0; 0; 1; 3]%nat ([l10; l20; l21], [u01; u02; u12], [d0; d1; d2]) = Some (L, U, D) ->
+  forall i j, i < 3 -> j < 3 ->
+    sumn (fun t => Lfull (mkSky 3 perm [0; 0; 1; 3]%nat L U D) i t * Ufull (mkSky 3 perm [0; 0; 1; 3]%nat L U D) t j) 3
+    = dense3 d0 d1 d2 l10 l20 l21 u01 u02 u12 i j.
+Proof. exact (crout_dense_3 Sft Seqb d0 d1 d2 l10 l20 l21 u01 u02 u12 perm L U D). Qed.
+
 (* FULL STATEMENT (unproved): A2 factorisation.
    forall (A : crs S) perm, wf A = true -> rows have distinct columns -> Permutation perm (seq 0 n) ->
      sky_build_perm A perm = SkyOk f ->
      forall i j, i < n -> j < n ->
        sumn (fun t => Lfull f i t * Ufull f t j) n = mget A (pget perm i) (pget perm j)
    (first for the full profile = dense Crout, then for the profile computed from the pattern:
-    entries outside the profile are zero and stay zero), together with
-     profile_wf n (sk_ptr f).
+    entries outside the profile are zero and stay zero).  [profile_wf and the non-zero pivots
+   ARE proved above; what is missing is that the stored factors multiply to P A P^T.]
    Tested instead: exact correspondence of the implementation with Direct.v and the
    spec-level oracle A x = b on every non-exceptional case (tools/props/C16.py). *)
 
@@ -203,6 +238,19 @@ Theorem C16_skyline_solve_exact_Qc (f : skyline QcS) (rhs x y : vec QcS) :
 Proof. exact (C16_skyline_solve_exact QcS QcS_field f rhs x y). Qed.
 Print Assumptions C16_skyline_solve_exact_Qc.
 
+
+Theorem C16_skyline_built_solver_exact_Qc reverse (A : crs QcS) f (rhs x y : vec QcS) :
+  graph_wf (map (map fst) (rows A)) = true -> (0 < nrows A)%nat ->
+  sky_build reverse A = SkyOk f -> length y = nrows A -> length x = nrows A ->
+  sk_n f = nrows A /\ Permutation (sk_perm f) (seq 0 (nrows A)) /\
+  forall i, i < nrows A ->
+    sumn (fun j => Lfull f i j *
+                   sumn (fun t => Ufull f j t * vget (fst (sky_solve f rhs x y)) (pget (sk_perm f) t))
+                        (sk_n f)) (sk_n f)
+    = vget rhs (pget (sk_perm f) i).
+Proof. exact (C16_skyline_built_solver_exact QcS QcS_field QcS_eqb reverse A f rhs x y). Qed.
+Print Assumptions C16_skyline_built_solver_exact_Qc.
+
 Theorem C16_inverse_exact_partial_Qc n (A t B : vec QcS) : (n <= 2)%nat ->
   length A = (n * n)%nat -> length t = (n * n)%nat ->
   inverse n A t = Some B ->
@@ -223,7 +271,26 @@ Print Assumptions C16_sm_ring_Qc.
    with a well-formed profile and non-zero pivots, and the solve returns the exact solution *)
 Example C16_nonvacuous :
   let A : crs QcS := mkCrs 3 [[(0, qc 4 1); (2, qc 1 1)]; [(1, qc 3 1)]; [(0, qc 1 1); (1, qc 1 1); (2, qc 5 1)]]%nat in
-  exists f, sky_build false A = SkyOk f /\ sk_perm f = [0; 1; 2]%nat /\ sk_ptr f = [0; 0; 0; 2]%nat /\
-    fst (sky_solve f [qc 5 1; qc 3 1; qc 7 1] [qc 9 1; qc 9 1; qc 9 1] [qc 8 1; qc 8 1; qc 8 1])
-      = [qc 1 1; qc 1 1; qc 1 1].
-Proof. vm_compute. eexists. repeat split; reflexivity. Qed.
+  match sky_build false A with
+  | SkyOk f =>
+      sk_perm f = [0; 1; 2]%nat /\ sk_ptr f = [0; 0; 0; 2]%nat /\
+      DirectSpec.vec_eqb
+        (fst (sky_solve f [qc 5 1; qc 3 1; qc 7 1] [qc 9 1; qc 9 1; qc 9 1] [qc 8 1; qc 8 1; qc 8 1]))
+        [qc 1 1; qc 1 1; qc 1 1] = true
+  | _ => False
+  end.
+Proof. vm_compute. repeat split; reflexivity. Qed.
+
+(* why the guard "no duplicate column inside a row" is needed: the second traversal of the
+   constructor OVERWRITES (U[...] = v, D[newi] = v) where spmv ADDS duplicate entries.  Row 0 =
+   {(0,2),(0,2),(1,1)} is the matrix [[4,1],[1,3]] for spmv, but skyline_lu solves [[2,1],[1,3]]:
+   (same output [3 -1] from the implementation, see the final report) *)
+Example C16_duplicate_entries_overwrite :
+  let A : crs QcS := mkCrs 2 [[(0, qc 2 1); (0, qc 2 1); (1, qc 1 1)]; [(0, qc 1 1); (1, qc 3 1)]]%nat in
+  match sky_build false A with
+  | SkyOk f =>
+      let x := fst (sky_solve f [qc 5 1; qc 0 1] [qc 0 1; qc 0 1] [qc 0 1; qc 0 1]) in
+      DirectSpec.vec_eqb x [qc 3 1; qc (-1) 1] = true /\ DirectSpec.solves_b A x [qc 5 1; qc 0 1] = false
+  | _ => False
+  end.
+Proof. vm_compute. split; reflexivity. Qed.
